@@ -88,15 +88,23 @@ Has(it, cp) == \E i \in DOMAIN it.cps : it.cps[i] = cp
 (*   holds both kinds of quotes, and inside url("..").  Scope: a string slot holding both quote            *)
 (*   characters, or a d_urlq content holding a double quote.                                               *)
 (* The first predicts that the re-read fails with an error; the second that it fails or - when the rest   *)
-(* of the text happens to parse (inside call arguments) - prints different text.                           *)
+(* of the text happens to parse (inside call arguments) - prints different text.  Both require their       *)
+(* trigger in out1 (a printer that stopped escaping quotes is a different defect and is reported).         *)
 Deviations == {"css_reader_ident_nonalnum", "css_reader_escaped_quote"}
 InScope(d, it) ==
   IF d = "css_reader_ident_nonalnum" THEN it.k \in IdSlot /\ it.cls \in NonAlnum
   ELSE IF d = "css_reader_escaped_quote" THEN \/ it.k = "d_urlq" /\ Has(it, 34)
                                               \/ it.k \in StrSlot /\ Has(it, 34) /\ Has(it, 39)
   ELSE FALSE
+(* ... and the trigger must be visible in out1: the raw non-ASCII character / a backslash before a quote *)
+Occurs(lines, cp) == \E n \in DOMAIN lines : \E j \in DOMAIN lines[n] : lines[n][j] = cp
+HasEscapedQuote(lines) == \E n \in DOMAIN lines : \E j \in 1..(Len(lines[n]) - 1) : lines[n][j] = 92 /\ lines[n][j + 1] \in {34, 39}
 Predicted(D, items, r1, r2) ==
   /\ r1.st = "ok"
-  /\ \/ "css_reader_ident_nonalnum" \in D /\ r2.st = "err" /\ \E i \in DOMAIN items : InScope("css_reader_ident_nonalnum", items[i])
-     \/ "css_reader_escaped_quote" \in D /\ r2.st \in {"err", "ok"} /\ \E i \in DOMAIN items : InScope("css_reader_escaped_quote", items[i])
+  /\ \/ /\ "css_reader_ident_nonalnum" \in D /\ r2.st = "err"
+        /\ \E i \in DOMAIN items : /\ InScope("css_reader_ident_nonalnum", items[i])
+                                   /\ \E j \in DOMAIN items[i].cps : items[i].cps[j] >= 128 /\ Occurs(r1.lines, items[i].cps[j])
+     \/ /\ "css_reader_escaped_quote" \in D /\ r2.st \in {"err", "ok"}
+        /\ \E i \in DOMAIN items : InScope("css_reader_escaped_quote", items[i])
+        /\ HasEscapedQuote(r1.lines)
 =============================================================================
